@@ -533,7 +533,12 @@ pub unsafe extern "C" fn read(fd: c_int, buf: *mut c_void, count: size_t) -> ssi
     if st.short_read_pct > 0 && count > 1 && st.paths[id].in_sandbox {
         let r = simkit::prng::splitmix64(&mut st.short_read_state);
         if (r % 100) < st.short_read_pct as u64 {
-            let k = 1 + ((r >> 8) % (count as u64)) as usize;
+            // a fraction of what the file still holds (not of the buffer, which for the 1-2 MiB
+            // buffers of tokio's File and the chunker is larger than most files here: such a
+            // "short" read would still return everything)
+            let left = file_len(fd) - pos;
+            let span = if left > 1 { (left as u64).min(count as u64) } else { count as u64 };
+            let k = 1 + ((r >> 8) % span) as usize;
             if k < n {
                 n = k;
                 st.short_reads += 1;
